@@ -35,7 +35,7 @@ def main():
         print(json.dumps({k: v for k, v in rec.items() if k != "results"}, indent=1))
         print(len(rec["results"]), "obligations;", len(bad), "not discharged")
         for r in bad[:10]:
-            print(r)
+            print({k: (str(v)[:300]) for k, v in r.items()})
         return 0
     from contracts import registry
 
